@@ -116,3 +116,5 @@ reg('C13', 'caches', 'rule_encode_all')
 reg('C01', 'replace_cache', 'rule_sibling_splice')
 reg('C05', 'replace_cache', 'rule_sibling_splice')
 reg('C07', 'replace_cache', 'rule_sibling_splice')
+reg('C08', 'streams', 'rule_first_mapped')
+reg('C09', 'streams', 'rule_namecheck')
